@@ -646,6 +646,7 @@ func (r *Round) Clear() {
 func (r *Round) Restart() error {
 	r.mutex.Lock()
 	if r.getState() >= Share {
+		r.mutex.Unlock()
 		return CompleteRoundRestartError
 	}
 	r.initialize()
